@@ -9,6 +9,23 @@ ALL = ["C%02d" % i for i in range(1, 21)]
 
 # id -> (category, text, note, technique, design_ref)
 CHECKS = {
+    "C19": ("exploration",
+            "With 1..16 callers running gets, puts, batches and scans, Close is issued at points chosen through real "
+            "preemption points of the client (its log statements, the dialer, held server replies): right before a dial, during "
+            "a dial, during the region probe, during a meta lookup, during retry back-off, with ZooKeeper failing, with a "
+            "scanner open, during batches, and at seeded instants. Afterwards: Close returned, calls in flight and later calls "
+            "end with the client-closed error, every connection the client dialled has been closed by it, no dial / ZooKeeper / "
+            "meta / request activity once all calls returned, no client goroutine in the process, second Close harmless.",
+            "Quiescence = all calls returned + 60 ms; activity is observed for 150 ms after it. Interleavings are those the hook "
+            "points and seeds realise.",
+            "runtime quiescence monitor (connection census, wire log, goroutine census) with hook-forced schedules", "DESIGN.md §2 C19"),
+    "C20": ("exploration",
+            "Bursts of up to 128 concurrent first users over up to 32 regions on 1..3 servers, later discoveries, with and "
+            "without connection failures (reset, abort exception, refused first dial, read error). A client-side dial log on one "
+            "clock shows for every address: one dial in fault-free runs, each re-dial only after every earlier connection to "
+            "that address had been closed by the client, and at most one open connection at quiescence.",
+            "'Declared dead' is observed as the client closing the connection. Seeded sample of bursts.",
+            "runtime event-log checker over the client-side dial/close log", "DESIGN.md §2 C20"),
     "C04": ("fault_enumeration",
             "(a) Every exception class the client classifies plus near-misses is injected at every position (response header, "
             "multi action, multi region) for gets, puts and batches in a scenario where only the right reaction succeeds (the "
